@@ -305,6 +305,8 @@ struct XModel {
     cost: String,
     raw: Vec<i32>,
     dual: Vec<i32>,
+    /// per id pair: Σ_p|c_p| ≤ 32767 by the reference (the dual connector cannot have clamped)
+    dual_exact: Vec<bool>,
     k: usize,
 }
 
@@ -338,7 +340,9 @@ pub fn xbuild_emit(dir: &Path, seed: u64, n: u32) -> Result<(), String> {
     for i in 0..n * 5 {
         let m = strat.new_tree(&mut runner).map_err(|e| e.to_string())?.current();
         let (right, left, cost) = m.render();
+        let rc = RefConn::from_bigram(&m);
         let x = XModel {
+            dual_exact: rc.abs_sum.iter().flatten().map(|&a| a <= 32767).collect(),
             raw: costs_of(&right, &left, &cost, false)?,
             dual: costs_of(&right, &left, &cost, true)?,
             k: m.k(),
@@ -375,10 +379,10 @@ pub fn xbuild_consume(dir: &Path) -> Result<XResult, String> {
                 return Err(format!("raw connector cost #{k} differs between builds: {} here vs {} in the emitting build (K={})", raw[k], x.raw[k], x.k));
             }
             // the dual connector's template split is not deterministic across processes, but its
-            // costs are whenever nothing is clamped; compare where raw == dual in the emitting build
+            // costs are wherever nothing can have been clamped
             let dual = costs_of(&x.right, &x.left, &x.cost, true)?;
-            for (k, ((d, xr), xd)) in dual.iter().zip(&x.raw).zip(&x.dual).enumerate() {
-                if xr == xd && d != xd && (i64::from(*xr)).abs() <= 32767 / 21 {
+            for (k, ((d, ok), xd)) in dual.iter().zip(&x.dual_exact).zip(&x.dual).enumerate() {
+                if *ok && d != xd {
                     return Err(format!("dual connector cost #{k} differs between builds: {d} here vs {xd} (K={})", x.k));
                 }
             }
